@@ -176,6 +176,8 @@ def run(tape, scenario):
             calls[0] += 1
             if calls[0] - 1 == long_at:
                 world.count("c17/eeprom-busy-for-hundreds-of-polls")
+                if tape.chance("c17/longer-busy", 25):
+                    return 1000 + tape.draw("c17/longest-busy-polls", 300)
                 return 150 + tape.draw("c17/long-busy-polls", 500)
             return tape.draw("c17/busy", maxbusy + 1)
         st.ee_delay = ee_delay
@@ -185,7 +187,7 @@ def run(tape, scenario):
         specs.append(dict(ident=ident, cats=dict(allcats), layout=layout, has41=41 in dict(allcats),
                           out_expect=out_expect, in_expect=in_expect, outbits=outbits,
                           inbits=inbits, with_mbx=with_mbx, st=st, server=server,
-                          ncat=len(allcats)))
+                          ncat=len(allcats), generic=sorted(generic)))
 
     results = [None] * nterm
     terms = [None] * nterm
@@ -206,6 +208,19 @@ def run(tape, scenario):
                 await t.to_operational(MachineState.PRE_OPERATIONAL)
             r["bits"] = await t.parse_pdos()
         r["serial"] = await ec.eeprom_read(-k, EEPROM.SERIAL_NO)
+        if scenario != "ebpf-terminal" and specs[k]["generic"] \
+                and tape.chance("c17/read-again-after-change", 25):
+            # the EEPROM is rewritten (a firmware update dropped a category, changed the
+            # serial number) and the same Terminal object reads it again
+            sp = specs[k]
+            gone = tape.pick("c17/category-gone", sp["generic"])
+            cats2 = [(typ, data) for typ, data in sp["cats"].items() if typ != gone]
+            ident2 = sp["ident"][:3] + (sp["ident"][3] + 1,)
+            sp["st"].eeprom = sii.build(*ident2, categories=cats2)
+            await t.read_eeprom()
+            r["reread"] = (ident2, dict(cats2), {typ: bytes(v) for typ, v in t.eeprom.items()},
+                           (t.vendorId, t.productCode, t.revisionNo, t.serialNo))
+            world.count("c17/eeprom-read-again-after-change")
         results[k] = r
 
     failure = []
@@ -239,6 +254,17 @@ def run(tape, scenario):
     for k, (sp, t, r) in enumerate(zip(specs, terms, results)):
         if violations or r is None:
             break
+        if "reread" in r:
+            ident2, cats2, got_cats, got_ident2 = r["reread"]
+            if got_ident2 != ident2:
+                viol("identity-mismatch", f"terminal {k}, second read: {got_ident2}, image has "
+                     f"{ident2}", reread=True)
+            if got_cats != cats2:
+                viol("category-set-mismatch" if set(got_cats) != set(cats2)
+                     else "category-content-mismatch",
+                     f"terminal {k}, second read after the image changed: categories "
+                     f"{sorted(got_cats)}, image has {sorted(cats2)}", reread=True)
+            continue      # (what the first read derived is judged in runs without a re-read)
         got_ident = (t.vendorId, t.productCode, t.revisionNo, t.serialNo)
         if got_ident != sp["ident"]:
             viol("identity-mismatch", f"terminal {k}: read {got_ident}, image has {sp['ident']}")
